@@ -8,6 +8,7 @@ require (
 	github.com/google/uuid v1.6.0
 	github.com/gostdlib/base v0.0.0-20250328165134-6931dc0137f3
 	pgregory.net/rapid v1.3.0
+	zombiezen.com/go/sqlite v1.4.0
 )
 
 require (
@@ -101,7 +102,6 @@ require (
 	sigs.k8s.io/json v0.0.0-20241014173422-cfa47c3a1cc8 // indirect
 	sigs.k8s.io/structured-merge-diff/v4 v4.5.0 // indirect
 	sigs.k8s.io/yaml v1.4.0 // indirect
-	zombiezen.com/go/sqlite v1.4.0 // indirect
 )
 
 replace github.com/element-of-surprise/coercion => /repo
